@@ -6,55 +6,21 @@ import (
 	"github.com/freeconf/yang/node"
 	"github.com/freeconf/yang/nodeutil"
 	"github.com/freeconf/yang/parser"
-	"github.com/freeconf/yang/val"
 )
 
 func main() {
-	y := `module k { namespace "urn:k"; prefix k; revision 0; identity b0; identity i1 { base b0; } identity other;
-	leaf e { type enumeration { enum a; enum b; } } leaf-list el { type enumeration { enum a; enum b; } }
-	leaf bo { type boolean; } leaf i { type int32 { range "1..10"; } } leaf s { type string { length "1..3"; } }
-	leaf bt { type bits { bit a; bit b; } } leaf-list idl { type identityref { base b0; } } leaf id { type identityref { base b0; } }
-	leaf u { type union { type int8 { range "1..5"; } type string { length "3"; } } } leaf d { type decimal64 { fraction-digits 2; } }
+	y := `module k { yang-version 1.1; namespace "urn:k"; prefix k; revision 0; identity base1; identity base2; identity d1 {base base1;} identity d2 { base base2; } identity d12 {base base1; base base2;} identity dd { base d12; }
+	leaf id1 { type identityref { base base1; } } leaf id12 { type identityref { base base1; base base2; } }
 	}`
 	m, err := parser.LoadModuleFromString(nil, y)
 	if err != nil {
 		panic(err)
 	}
-	try := func(name string, leaf string, v val.Value) {
+	for _, doc := range []string{`{"id1":"base1"}`, `{"id1":"d1"}`, `{"id1":"bogus:d1"}`, `{"id1":"k:d1"}`, `{"id1":"d2"}`, `{"id12":"d1"}`, `{"id12":"d2"}`, `{"id12":"d12"}`, `{"id12":"dd"}`, `{"id12":"base1"}`} {
 		data := map[string]interface{}{}
 		b := node.NewBrowser(m, nodeutil.ReflectChild(data))
-		func() {
-			defer func() {
-				if r := recover(); r != nil {
-					fmt.Printf("%-45s PANIC %v\n", name, r)
-				}
-			}()
-			s, err := b.Root().Find(leaf)
-			if err != nil || s == nil {
-				fmt.Println(name, "find", err)
-				return
-			}
-			err = s.Set(v)
-			fmt.Printf("%-45s err=%v store=%v\n", name, err, data)
-		}()
+		src, _ := nodeutil.ReadJSON(doc)
+		err := b.Root().UpsertFrom(src)
+		fmt.Println(doc, "->", err, data)
 	}
-	try("enum Id 9 zz", "e", val.Enum{Id: 9, Label: "zz"})
-	try("enum ok", "e", val.Enum{Id: 1, Label: "b"})
-	try("enum label right id wrong", "e", val.Enum{Id: 7, Label: "b"})
-	try("enumlist zz", "el", val.EnumList{{Id: 7, Label: "zz"}})
-	try("string on boolean", "bo", val.String("abc"))
-	try("decimal on int32", "i", val.Decimal64(5.5))
-	try("int32list on leaf", "i", val.Int32List{1, 2})
-	try("int64 on int32 in range", "i", val.Int64(5))
-	try("int32 out of range", "i", val.Int32(50))
-	try("string on leaf-list", "idl", val.String("i1"))
-	try("bits zz", "bt", val.Bits{Positions: 64, Labels: []string{"zz"}})
-	try("identref bogus", "id", val.IdentRef{Label: "bogus"})
-	try("identref other", "id", val.IdentRef{Label: "other"})
-	try("identref list bogus", "idl", val.IdentRefList{{Label: "bogus"}})
-	try("union int32 9", "u", val.Int32(9))
-	try("union string abcdef", "u", val.String("abcdef"))
-	try("union bool", "u", val.Bool(true))
-	try("string on decimal", "d", val.String("x"))
-	try("nil", "i", nil)
 }
